@@ -252,6 +252,10 @@ func c11Replay(raw json.RawMessage) ([]string, string) {
 	}); ok {
 		return keys, detail
 	}
+	var h c11Held
+	if json.Unmarshal(raw, &h) == nil && h.Held {
+		return c11HeldExec(h)
+	}
 	var c c11Case
 	if err := json.Unmarshal(raw, &c); err != nil {
 		return nil, err.Error()
@@ -329,8 +333,46 @@ func c11Cases(thorough bool) (cases []c11Case, n1 int) {
 	return cases, n1
 }
 
+// c11Held: a decryption result is kept by its caller while the next assertion is decrypted; it
+// must still be the first plaintext afterwards.
+type c11Held struct {
+	Held    bool `json:"held_result"`
+	DataAlg int  `json:"data_alg"`
+	Len     int  `json:"len"`
+}
+
+func c11HeldExec(c c11Held) (keys []string, detail string) {
+	cert := tls.Certificate{Certificate: [][]byte{world.Cert("KS").Raw}, PrivateKey: world.RSAKey("KS")}
+	mkEA := func(pt []byte) *types.EncryptedAssertion {
+		d := etree.NewDocument()
+		d.SetRoot(idp.EncryptPlaintext(pt, idp.EncSpec{DataAlg: idp.AllDataAlgs[c.DataAlg], ToKey: "KS"}))
+		b, _ := d.WriteToBytes()
+		ea := &types.EncryptedAssertion{}
+		xmlUnmarshal(b, ea)
+		return ea
+	}
+	pt1 := c11Plain(c.Len, 0)
+	pt2 := bytes.ToUpper(c11Plain(c.Len+7, 0))
+	var got1, got2 []byte
+	var e1, e2 error
+	p := guard(func() {
+		got1, e1 = mkEA(pt1).DecryptBytes(&cert)
+		got2, e2 = mkEA(pt2).DecryptBytes(&cert)
+	})
+	alg := idp.AllDataAlgs[c.DataAlg]
+	alg = alg[strings.LastIndex(alg, "#")+1:]
+	detail = fmt.Sprintf("case=%+v alg=%s | first: err=%v, second: err=%v panic=%q | first result after the second call equals its plaintext: %v", c, alg, e1, e2, p, bytes.Equal(got1, pt1))
+	if p != "" || e1 != nil || e2 != nil {
+		return []string{"C11/DecryptBytes/held-result/error-or-panic/" + alg}, detail
+	}
+	if !bytes.Equal(got1, pt1) || !bytes.Equal(got2, pt2) {
+		return []string{"C11/DecryptBytes/result-held-by-the-caller-changed-by-the-next-decryption/" + alg}, detail
+	}
+	return nil, detail
+}
+
 func c11Run(r *mc.Run) {
-	r.Rule = "DecryptBytes level: full product data algorithm(5) x key transport/digest(9: OAEP-MGF1P and OAEP 1.1 with digest absent/sha1/sha256/sha512, RSA 1.5) x EncryptedKey placement(2) x recipient certificate(2) x plaintext length 0..48 (and 255..257, 4095..4097, 65535..65537, 1 MiB + 1) x tail(4: non-zero, 1, 2, 16 zero bytes) x CBC pad fill(3: zero, PKCS#7, 0xff), oracle = an independent XML-Enc encryptor (idp/enc.go): decrypted bytes = plaintext exactly; ValidateEncodedResponse level: 45 combinations x 16 residues mod 16 x placement(2) x signing(2) x 5 key configurations (field, setter, both same, both different, field holding a key store of a custom type), plus Responses with two assertions of which the first, the second or both are encrypted (2 algorithms x 2 key configurations x 2 signing placements), oracle = plaintext twin (same outcome, same data in the same order, same summary); field-configured keys are also rolled over on the used instance, a setter-configured KeyStore is also updated in place; two encrypted assertions also with different key placement and digest. non-trivial = decryption reached the symmetric step; distinct = distinct case"
+	r.Rule = "DecryptBytes level: full product data algorithm(5) x key transport/digest(9: OAEP-MGF1P and OAEP 1.1 with digest absent/sha1/sha256/sha512, RSA 1.5) x EncryptedKey placement(2) x recipient certificate(2) x plaintext length 0..48 (and 255..257, 4095..4097, 65535..65537, 1 MiB + 1) x tail(4: non-zero, 1, 2, 16 zero bytes) x CBC pad fill(3: zero, PKCS#7, 0xff), oracle = an independent XML-Enc encryptor (idp/enc.go): decrypted bytes = plaintext exactly, and still so after the next decryption (results held by the caller); ValidateEncodedResponse level: 45 combinations x 16 residues mod 16 x placement(2) x signing(2) x 5 key configurations (field, setter, both same, both different, field holding a key store of a custom type), plus Responses with two assertions of which the first, the second or both are encrypted (2 algorithms x 2 key configurations x 2 signing placements), oracle = plaintext twin (same outcome, same data in the same order, same summary); field-configured keys are also rolled over on the used instance, a setter-configured KeyStore is also updated in place; two encrypted assertions also with different key placement and digest. non-trivial = decryption reached the symmetric step; distinct = distinct case"
 	r.Assume("for non-default OAEP digests MGF1 uses the same hash (the reading under which the library's exported identifiers interoperate with itself)")
 	cases, n1 := c11Cases(r.Thorough())
 	r.Set("decryptbytes_cases", n1)
@@ -345,6 +387,21 @@ func c11Run(r *mc.Run) {
 			return sig(keys, class)
 		}, fresh[n1:])
 	}()
+	// sequential: results held across the next decryption
+	for alg := range idp.AllDataAlgs {
+		for _, n := range []int{16, 33, 100, 4096} {
+			h := c11Held{Held: true, DataAlg: alg, Len: n}
+			keys, detail := c11HeldExec(h)
+			r.Eval(2)
+			r.State(1)
+			r.Transition(2)
+			r.Bucket("held-result")
+			r.Nontrivial(fmt.Sprintf("%+v", h))
+			for _, k := range keys {
+				r.Violation(k, detail, h)
+			}
+		}
+	}
 	r.Par(len(cases), func(i int) {
 		c := cases[i]
 		keys, detail, class := c11Exec(c)
